@@ -121,12 +121,18 @@ pub fn to_json(s: &HistScenario) -> J {
                             Op::Add { path, content } => {
                                 o.put("path", J::s(path.clone()));
                                 o.put("text", J::s(content.text()));
+                                if let Some(m) = content.meta() {
+                                    o.put("meta", m.to_json());
+                                }
                             }
                             Op::Remove { path } => o.put("path", J::s(path.clone())),
                             Op::Validate { times } => o.put("times", J::u(*times as u64)),
                             Op::DiskWrite { path, content, tail } => {
                                 o.put("path", J::s(path.clone()));
                                 o.put("text", J::s(content.text()));
+                                if let Some(m) = content.meta() {
+                                    o.put("meta", m.to_json());
+                                }
                                 if !tail.is_empty() {
                                     o.put("tail_hex", J::s(json::to_hex(tail)));
                                 }
@@ -167,14 +173,7 @@ pub fn from_json(j: &J) -> Result<HistScenario, String> {
                 .ok_or("step.path missing")?
                 .to_owned())
         };
-        let text = || -> Result<Content, String> {
-            Ok(Content::Raw(
-                st.get("text")
-                    .and_then(|p| p.as_str())
-                    .ok_or("step.text missing")?
-                    .to_owned(),
-            ))
-        };
+        let text = || -> Result<Content, String> { Content::from_json_step(st) };
         let op = match st.get("op").and_then(|o| o.as_str()) {
             Some("add_content") => Op::Add {
                 path: path()?,
@@ -460,7 +459,7 @@ pub fn generate(rng: &mut Rng, prop: Prop, thorough: bool) -> (HistScenario, Str
     let files_enabled = prop == Prop::C12 && rng.pct(75) || prop == Prop::C13 && rng.pct(30);
     let w_disk = if files_enabled { *rng.pick(&[10u32, 20]) } else { 0 };
     let w_add_file = if files_enabled { *rng.pick(&[15u32, 30, 45]) } else { 0 };
-    let p_fault = *rng.pick(&[0u32, 30, 45, 70]);
+    let p_fault = *rng.pick(&[0u32, 30, 50, 70]);
     let mut enabled = [false; 7];
     for e in enabled.iter_mut() {
         *e = rng.pct(65);
@@ -514,6 +513,17 @@ pub fn generate(rng: &mut Rng, prop: Prop, thorough: bool) -> (HistScenario, Str
         }
         st.paths.truncate(n_paths + 0);
         st.paths.extend(rm.iter().take(keep).cloned());
+    }
+    if files_enabled {
+        // most files exist on disk from the start, so that most loads have something to read
+        for p in st.paths.clone() {
+            if rng.pct(70) {
+                let d = st.fresh_doc(rng);
+                let c = st.content_from(rng, d);
+                st.disk.insert(disk_slot(&p), c.clone());
+                steps.push(mk(rng, Op::DiskWrite { path: p, content: c, tail: Vec::new() }, "disk_seed"));
+            }
+        }
     }
     let target = steps.len() + n_steps;
     while steps.len() < target {
@@ -624,7 +634,7 @@ pub fn generate(rng: &mut Rng, prop: Prop, thorough: bool) -> (HistScenario, Str
                     .filter(|q| st.disk.contains_key(&disk_slot(q)))
                     .cloned()
                     .collect();
-                let p = if on_disk.is_empty() || rng.pct(12) {
+                let p = if on_disk.is_empty() || rng.pct(8) {
                     rng.pick(&st.paths).clone() // maybe missing
                 } else {
                     rng.pick(&on_disk).clone()
